@@ -139,6 +139,8 @@ pub fn options_from(c: &J, ctx: &Ctx) -> BBIWriteOptions {
         _ => {
             let z: Vec<u32> = o["zooms"].as_array().map(|a| a.iter().map(|v| v.as_u64().unwrap() as u32 * ctx.scale).collect()).unwrap_or_default();
             opt.manual_zoom_sizes = Some(z);
+            // max_zooms set next to a manual list (--nzooms with --zooms): the list decides which levels are written
+            if let Some(m) = o["maxz"].as_u64() { opt.max_zooms = m as u32; }
         }
     }
     opt
@@ -200,6 +202,45 @@ pub fn write_file(c: &J, ctx: &Ctx, sink: SharedSink) -> Result<(), String> {
     let allow = matches!(opts.input_sort_type, InputSortType::START);
     let pass = c["opts"]["pass"].as_i64().unwrap_or(1);
     let rt = runtime_from(c);
+    // "src": "text" - the items go through a bedGraph / BED text file and the real line reader + parser ("eol": "crlf" for Windows
+    // line ends, "final_nl": 0 for a last line that is not terminated)
+    let text = c["src"].as_str().unwrap_or("iter") == "text";
+    let tf = tempfile::NamedTempFile::new().unwrap();
+    if text {
+        use std::io::Write;
+        let eol = if c["eol"].as_str().unwrap_or("lf") == "crlf" { "\r\n" } else { "\n" };
+        let mut lines: Vec<String> = vec![];
+        if kind == "bw" {
+            for (n, v) in bw_items(c, ctx) { lines.push(format!("{}\t{}\t{}\t{}", n, v.start, v.end, v.value)); }
+        } else {
+            for (n, e) in bb_items(c, ctx) { lines.push(if e.rest.is_empty() { format!("{}\t{}\t{}", n, e.start, e.end) } else { format!("{}\t{}\t{}\t{}", n, e.start, e.end, e.rest) }); }
+        }
+        let mut body = lines.join(eol);
+        if c["final_nl"].as_i64().unwrap_or(1) == 1 && !lines.is_empty() { body.push_str(eol); }
+        let mut f = std::fs::File::create(tf.path()).unwrap();
+        f.write_all(body.as_bytes()).unwrap();
+    }
+    if kind == "bw" && text {
+        let mut w = BigWigWrite::new(sink, chrom_map(c, ctx));
+        w.options = opts;
+        return if pass == 2 {
+            w.write_multipass(|| Ok(BedParserStreamingIterator::from_bedgraph_file(std::fs::File::open(tf.path())?, allow)), rt).map_err(|e| e.to_string())
+        } else {
+            w.write(BedParserStreamingIterator::from_bedgraph_file(std::fs::File::open(tf.path()).unwrap(), allow), rt).map_err(|e| e.to_string())
+        };
+    }
+    if kind != "bw" && text {
+        let mut w = BigBedWrite::new(sink, chrom_map(c, ctx));
+        w.options = opts;
+        if let Some(a) = c["autosql"].as_str() {
+            w.autosql = Some(a.to_string());
+        }
+        return if pass == 2 {
+            w.write_multipass(|| Ok(BedParserStreamingIterator::from_bed_file(std::fs::File::open(tf.path())?, allow)), rt).map_err(|e| e.to_string())
+        } else {
+            w.write(BedParserStreamingIterator::from_bed_file(std::fs::File::open(tf.path()).unwrap(), allow), rt).map_err(|e| e.to_string())
+        };
+    }
     if kind == "bw" {
         let items = bw_items(c, ctx);
         let mut w = BigWigWrite::new(sink, chrom_map(c, ctx));
